@@ -15,7 +15,7 @@ def make(rd, tier, seed, ev):
     ev.add_model(r, 'PlanGen: enumeration of all small timeline problems with their feasibility verdicts')
     sv = [s for s in shapes if s['fam'] == 'sv']
     pick = gen_problems.sample_shapes(sv, 250 if tier == 'quick' else 2500, seed)
-    gen = plancheck.write_problems(rd, [(gen_problems.shape_name(s), gen_problems.render_timeline(s)) for s in pick]) + plancheck.feature_problems(rd, ['timeline_sv', 'subclass'], seed, tier)[0]
+    gen = plancheck.write_problems(rd, [(gen_problems.shape_name(s), gen_problems.render_timeline(s)) for s in pick]) + plancheck.feature_problems(rd, ['timeline_sv', 'subclass', 'inactive'], seed, tier)[0]
     expected = {gen_problems.shape_name(s): s['feasible'] for s in pick}
     repo = [p for p in plancheck.repo_problems() if p[0].startswith(('SVTest', 'GOAC', 'Logistics', 'Telepresence'))]
     if tier == 'quick':
